@@ -15,7 +15,8 @@ func init() {
 		Level: "exploration",
 		Rule: "finite grid: {all 169 conversion instantiations, Append for 13 element types} x every ordered pair of different channel counts in 1..4; {ReadStriped, WriteStriped} x type pairs x channel counts 1..4 x slice counts 0..5 different from the channel count; PoolAllocator.Put x element types x allocator shapes x rejected-buffer kinds {later-frame slice, grown by Append, foreign allocator with larger / smaller capacity}; " +
 			"every operand is a window of a stamped canary arena; the call must panic, and afterwards both arenas (whole parent capacity, through the hook), both shapes, every caller slice element and the pool (next Gets fresh, never the rejected object) must be unchanged; " +
-			"distinct = distinct (entry point, instantiation, shape pair) tuples; all are non-trivial (non-empty operands with recognisable contents)",
+			"distinct = distinct (entry point, instantiation, shape pair) tuples; all are non-trivial (non-empty operands with recognisable contents); " +
+			"also: every conversion mismatch with equal total sample counts",
 		Assume:    []string{"only panic / no panic is compared, not the message", "in the plain build sync.Pool returns a just-Put object to the same goroutine, so a rejected buffer that was pooled anyway would be handed out by the next Get"},
 		Exhaustiv: "the mismatch grid described in the rule is enumerated completely in the thorough tier (quick: every entry point and element type, a third of the type pairs for the striped forms)",
 		Plan:      func(tier string) []Batch { return split("grid", 4, 600) },
